@@ -7,7 +7,7 @@ from vsa.facts import Facts, unwrap, show, walk, lit_value
 from vsa.front import AnalysisBroken
 from vsa.alg import Fold, S, F as Fn, equal, is_zero, guard_strs
 from vsa.cfg import CFG
-from vsa.cases import decide, resolve_ite
+from vsa.cases import decide, resolve_ite, executes
 from rules.C08 import stream_items
 
 LEVEL = "other"
@@ -409,6 +409,7 @@ def run(rep, tier):
         rep.check(ok and okp and oks, "R18.5", "selection|" + f.qname.split("::")[-1], "name: -> wildcmp(pattern, getName()); else wildcmp(pattern, getType())",
                   "%s: selection table is %s (prefix test ok: %s, pattern extraction ok: %s)" % (f.qname, table, okp, oks), f.loc(), sample=True)
     check_wildcmp(rep, F)
+    check_wildcmp_overload(rep, F)
     rep.assumptions += ["tools::wildcmp's back-tracking matcher is not decided statically (needs exhaustive comparison with a reference matcher)",
                         "std::stoi's own input validation ('malformed expressions are rejected') is trusted"]
 
@@ -471,3 +472,66 @@ def lit_str(n):
 
 def show_lambda(l):
     return " ".join(show(x) for x in walk(l["body"]) if x.get("k") in ("binop", "return", "char"))
+
+
+def check_wildcmp_overload(rep, F):
+    """the std::string overload answers what the character matcher answers.  A shortcut that rejects on lengths alone is decided: every pattern
+    character other than '*' consumes exactly one character, a '*' none or more - so with s stars and c other characters a string of length L can
+    match iff L >= c (s > 0) or L == c (s == 0).  Other shortcuts are not interpreted (analysis-broken, not a verdict)."""
+    import itertools
+    from vsa.cases import decide
+    rep.rule("R18.7", "wildcmp(std::string, std::string) returns what wildcmp(const char*, const char*) returns; a length-based rejection in front of the delegation "
+                      "never fires for a pattern/string pair whose lengths allow a match (patterns with several '*' included)")
+    fs = [f for f in F.find(T + "wildcmp") if "basic_string" in f.j["sig"]]
+    if len(fs) != 1:
+        rep.broken("R18.7", "the std::string overload of wildcmp was not found")
+        return
+    f = fs[0]
+    rep.analysed(f)
+    wp, sp_ = [p_["name"] for p_ in f.j["params"][:2]]
+    fo = Fold(f, inline=False).run()
+    conds = getattr(fo, "conds", {})
+    rets = [e for e in fo.events if e["kind"] == "return"]
+    deleg = [e for e in rets if str(e["value"]) == "wildcmp(c_str(%s), c_str(%s))" % (wp, sp_)]
+    other = [e for e in rets if e not in deleg]
+    if len(deleg) != 1:
+        rep.check(False, "R18.7", "string-overload", "delegates to the character matcher", "wildcmp(string, string) does not return wildcmp(%s.c_str(), %s.c_str()) (returns %s)" % (wp, sp_, [str(e["value"])[:60] for e in rets]), f.loc(), sample=True)
+        return
+    SW, SS = Fn("size")(S(wp)), Fn("size")(S(sp_))
+    bad = None
+    for e in other:
+        if e["value"] != 0:
+            rep.broken("R18.7", "wildcmp(string, string) has a shortcut returning %s that the rule does not interpret" % e["value"])
+            return
+        for c_, s_, L in itertools.product(range(0, 4), range(0, 4), range(0, 5)):
+            def orc(lf, s_=s_):
+                if isinstance(lf, tuple) and len(lf) == 3 and lf[0] in ("==", "!=") and "find(%s, 42" % wp in str(lf[1]) + str(lf[2]) and "npos" in str(lf[1]) + str(lf[2]):
+                    return ("STAR", lf[0] == "!=")
+                return None
+            sub = {SW: sp.Integer(c_ + s_), SS: sp.Integer(L)}
+            for a_ in [x for g in e["guards"] for x in _walk_atoms(g[0])]:
+                if str(getattr(a_, "func", "")) == "count" and "42" in str(a_):
+                    sub[a_] = sp.Integer(s_)
+            x = executes(e, sub, {"STAR": s_ > 0}, orc, conds)
+            if x is None:
+                rep.broken("R18.7", "wildcmp(string, string): the shortcut condition %s is not a function of the lengths and the presence/number of '*'" % guard_strs(fo, e["guards"]))
+                return
+            possible = (L >= c_) if s_ > 0 else (L == c_)
+            if x and possible:
+                bad = "the shortcut %s rejects a pattern with %d '*' and %d other characters against a string of length %d, although such a pair can match (e.g. '%s' vs '%s')" % (
+                    guard_strs(fo, e["guards"])[0][:140], s_, c_, L, "*" * (s_ // 2) + "a" * c_ + "*" * (s_ - s_ // 2), "a" * L)
+                break
+        if bad:
+            break
+    rep.check(bad is None, "R18.7", "string-overload", "the string overload only delegates (length shortcuts never reject a possible match)", "wildcmp(string, string): %s" % bad, f.loc(), sample=True)
+
+
+def _walk_atoms(c):
+    out, stack = [], [c]
+    while stack:
+        x = stack.pop()
+        if isinstance(x, tuple):
+            stack += list(x[1:])
+        elif isinstance(x, sp.Basic):
+            out += list(sp.preorder_traversal(x))
+    return out
